@@ -14,7 +14,7 @@ pub const RULE: &str = "(generated specification with placeholders in trailing a
 with k ∈ {min-1, min, max, max+1, 0} arbitrary masters per placeholder — including the master that follows the placeholder (greedy-matching trap) —, (ii) by deleting / duplicating / swapping one link of such a chain, (iii) at random; depth <= 8 \
 × EVERY element of the specification offered under every prefix of the chain. Writer: one TagWriter grows the chain link by link (known-size Start = judged; links the reference rejects are then opened with the unknown-size option, which skips validation, so unreachable chains are explored too; in a third of the steps a whole Full master — acceptable, or refused for its last child — is written before the offers and/or right before the chain grows, so that verdicts depending on history show); \
 verdict Ok ⇔ ref_match(path, chain), rejection = UnexpectedTag carrying the id. Reader: the reference encoder puts chain + tag on the wire (known sizes, or unknown sizes in a second run); expected item sequence and the first HierarchyError (with the offending id) are simulated with ref_match on the chain that remains after closing unknown-size masters (ref_closes). \
-Each decision is one evaluation. Non-trivial: the tag's path or the chain involves a placeholder, or the verdict is 'reject'; distinct by (spec, chain, tag, side).";
+Stage same_element_after_moves: one writer, one element X accepted under a chain matching its path; then masters are closed (End) and others opened with the unknown-size option (neither is judged) and X is offered again, up to 3 moves: verdict ⇔ ref_match on the chain open now (non-trivial there: an offer after a move that must be refused). Each decision is one evaluation. Non-trivial: the tag's path or the chain involves a placeholder, or the verdict is 'reject'; distinct by (spec, chain, tag, side).";
 
 pub const ASSUMPTIONS: &[&str] = &[
     "reader chains start at a root element so that the position in the document is known from the first element",
